@@ -454,6 +454,25 @@ def d52():
   return None if np.allclose(x, best, atol=1e-6) else 'nested Intersection.project is feasible but not nearest: returned %s, nearest %s' % (np.array(x).round(6).tolist(), best.tolist())
 
 
+def d53():
+  d = SDevice('s', 3, (-2, 2), efficiency=1, start=1, capacity=6, c3=1, damage_depth=0.5)
+  r = np.array([1, -2, 1])
+  try:
+    [c['fun'](r) for c in d.constraints]; [c['jac'](r) for c in d.constraints if 'jac' in c]; d.deriv(r, 0)
+  except ValueError as e:
+    return 'SDevice(efficiency=1) with an integer-typed flow: constraints / deriv raise ValueError (%s) while charge_at accepts it' % str(e)[:50]
+  return None
+
+
+def d54():
+  f = X2D([Poly1D(np.poly1d([1, 2, 3])), HLQuadraticCost(-2, -1, 0, 3)])
+  try:
+    g = f.deriv(np.array([1., 2.]))
+  except ValueError:
+    return 'X2D mixing Poly1D with HLQuadraticCost: deriv raises ValueError (inhomogeneous shapes)'
+  return None if np.allclose(g, [4., -2 + 1*(2/3)]) else 'deriv %s' % g
+
+
 if __name__ == '__main__':
   names = [a for a in sys.argv[2:]] or sorted(k for k in globals() if k[0] == 'd' and k[1:3].isdigit())
   bad = 0
